@@ -3,7 +3,6 @@ package main
 import (
 	"encoding/json"
 	"fmt"
-	"os"
 	"sort"
 	"strings"
 	"sync"
@@ -237,11 +236,23 @@ var c16Snapshot = func() []kop {
 }()
 
 type divergence struct {
-	Step  int    `json:"step"` // index in path; len(path)+i = i-th snapshot observation
-	Label string `json:"label"`
-	Got   string `json:"got"`
-	Want  string `json:"want"`
-	Desc  string `json:"desc"` // class used to recognise the same root cause in longer paths
+	Step  int      `json:"step"` // index in path; len(path)+i = i-th snapshot observation
+	Label string   `json:"label"`
+	Got   string   `json:"got"`
+	Want  string   `json:"want"`
+	Descs []string `json:"descs"` // divergence classes (one per wrong listing element) used to recognise the same root cause in longer histories
+}
+
+func (d *divergence) has(desc string) bool {
+	if d == nil {
+		return false
+	}
+	for _, x := range d.Descs {
+		if x == desc {
+			return true
+		}
+	}
+	return false
 }
 
 func unlist(s string) []string {
@@ -255,28 +266,20 @@ func unlist(s string) []string {
 func mkDivergence(step int, o kop, got, want string) *divergence {
 	d := &divergence{Step: step, Label: o.label(), Got: got, Want: want}
 	if o.T == "keys" && strings.HasPrefix(got, "[") {
-		d.Desc = "keys:" + diffSets(unlist(got), unlist(want))
+		for _, e := range strings.Split(diffSets(unlist(got), unlist(want)), ",") {
+			d.Descs = append(d.Descs, "keys:"+e)
+		}
 	} else {
-		d.Desc = o.label() + ":" + got + "!=" + want
+		d.Descs = []string{o.label() + ":" + got + "!=" + want}
 	}
 	return d
 }
 
 // c16Run resets the backend, runs the path comparing every return value with the model,
-// then compares the full snapshot. Returns the first divergence (nil = conforms) and the
-// model after the path.
-func c16Run(bk *backend, path []kop) (*divergence, *kvModel, error) {
-	d, m, _, err := c16RunL(bk, path)
-	return d, m, err
-}
-
-func c16RunL(bk *backend, path []kop) (*divergence, *kvModel, string, error) {
-	d, m, last, err := c16run(bk, path)
-	return d, m, last, err
-}
-
-func c16run(bk *backend, path []kop) (*divergence, *kvModel, string, error) {
-	if err := bk.reset(); err != nil {
+// then compares the full snapshot. Returns the first divergence (nil = conforms), the
+// model after the path and the model's result of the last operation.
+func c16Run(bk *backend, path []kop) (*divergence, *kvModel, string, error) {
+	if err := bk.softReset(); err != nil {
 		return nil, nil, "", fmt.Errorf("reset %s: %w", bk.name, err)
 	}
 	m := newKVModel()
@@ -320,51 +323,7 @@ func hiddenObs(kv chord.KVProvider) string {
 	return sb.String()
 }
 
-// ---------------------------------------------------------------- minimisation
-
-type knownMin struct {
-	seq  []string
-	desc string
-}
-
-type c16Finder struct {
-	mu    sync.Mutex
-	known map[string][]knownMin // backend/hash -> minimal failing sequences
-}
-
-func (f *c16Finder) explained(bkey string, lab []string, desc string) bool {
-	for _, k := range f.known[bkey] {
-		if k.desc == desc && isSubseq(k.seq, lab) {
-			return true
-		}
-	}
-	return false
-}
-
-// minimise removes operations greedily (first to last, repeated to a fix-point) while the
-// path still diverges on the backend with the same divergence class.
-func c16Minimise(bk *backend, path []kop, desc string) ([]kop, *divergence, error) {
-	cur := append([]kop(nil), path...)
-	d, _, err := c16Run(bk, cur)
-	if err != nil {
-		return nil, nil, err
-	}
-	for changed := true; changed; {
-		changed = false
-		for i := 0; i < len(cur); i++ {
-			cand := append(append([]kop(nil), cur[:i]...), cur[i+1:]...)
-			d2, _, err := c16Run(bk, cand)
-			if err != nil {
-				return nil, nil, err
-			}
-			if d2 != nil && d2.Desc == desc {
-				cur, d, changed = cand, d2, true
-				i--
-			}
-		}
-	}
-	return cur, d, nil
-}
+// ---------------------------------------------------------------- failing histories
 
 type c16Fail struct {
 	idx  int
@@ -383,9 +342,6 @@ func newC16Workers(hm hashMode, n int) (*c16Workers, error) {
 	for i := 0; i < n; i++ {
 		var set []*backend
 		for _, name := range backendNames {
-			if o := os.Getenv("KVSEQ_DEBUG_ONLY"); o != "" && o != name {
-				continue
-			}
 			b, err := newBackend(name, hm.Fn)
 			if err != nil {
 				return nil, err
@@ -415,12 +371,14 @@ func c16(c *report.Check) {
 	alphaBFS := c16Alphabet(true) // BFS additionally puts nil
 	nw := numWorkers()
 	dist := report.NewDistinct(8)
-	finder := &c16Finder{known: map[string][]knownMin{}}
+	finder := newMinFinder()
 	var internal []string
 	var imu sync.Mutex
 	fail := func(msg string) {
 		imu.Lock()
-		internal = append(internal, msg)
+		if len(internal) < 20 {
+			internal = append(internal, msg)
+		}
 		imu.Unlock()
 	}
 	paths, opsRun, explained := 0, 0, 0
@@ -431,15 +389,19 @@ func c16(c *report.Check) {
 	// resolve: deterministic, sequential treatment of the unexplained failing paths of a level
 	resolve := func(ws *c16Workers, fails []c16Fail) {
 		sort.SliceStable(fails, func(i, j int) bool {
+			if len(fails[i].path) != len(fails[j].path) {
+				return len(fails[i].path) < len(fails[j].path)
+			}
 			if fails[i].idx != fails[j].idx {
 				return fails[i].idx < fails[j].idx
 			}
 			return fails[i].bk < fails[j].bk
 		})
 		for _, f := range fails {
-			bkey := f.bk + "/" + ws.hm.Name
+			scope := f.bk + "/" + ws.hm.Name
 			lab := labels(f.path)
-			if finder.explained(bkey, lab, f.d.Desc) {
+			un := finder.unexplained(scope, lab, f.d.Descs)
+			if len(un) == 0 {
 				explained++
 				continue
 			}
@@ -449,19 +411,36 @@ func c16(c *report.Check) {
 					bk = b
 				}
 			}
-			min, d, err := c16Minimise(bk, f.path, f.d.Desc)
-			if err != nil {
-				fail(err.Error())
-				continue
+			for _, desc := range un {
+				if len(finder.unexplained(scope, lab, []string{desc})) == 0 {
+					continue
+				}
+				var lastD *divergence
+				min, err := minimiseSeq(f.path, func(cand []kop) (bool, error) {
+					d, _, _, err := c16Run(bk, cand)
+					if err != nil {
+						return false, err
+					}
+					if d.has(desc) {
+						lastD = d
+						return true, nil
+					}
+					return false, nil
+				})
+				if err != nil {
+					fail(err.Error())
+					continue
+				}
+				d := lastD
+				if d == nil { // did not reproduce on re-run: report the original history as is
+					min, d = f.path, f.d
+				}
+				ml := labels(min)
+				finder.add(scope, ml, desc)
+				c.Violation(fmt.Sprintf("c16:%s:%s:%s:%s", f.bk, ws.hm.Name, strings.Join(ml, ";"), desc),
+					fmt.Sprintf("backend=%s hash=%s history=%v: %s returned %s, the KV contract requires %s (minimised from %v)", f.bk, ws.hm.Name, ml, d.Label, d.Got, d.Want, lab),
+					map[string]any{"hash": ws.hm.Name, "backend": f.bk, "path": min, "desc": desc})
 			}
-			if d == nil { // not reproducible: report the original path as is
-				min, d = f.path, f.d
-			}
-			ml := labels(min)
-			finder.known[bkey] = append(finder.known[bkey], knownMin{ml, d.Desc})
-			c.Violation(fmt.Sprintf("c16:%s:%s:%s:%s", f.bk, ws.hm.Name, strings.Join(ml, ";"), d.Desc),
-				fmt.Sprintf("backend=%s hash=%s history=%v: %s returned %s, the KV contract requires %s (minimised from %v)", f.bk, ws.hm.Name, ml, d.Label, d.Got, d.Want, lab),
-				map[string]any{"hash": ws.hm.Name, "backend": f.bk, "path": min})
 		}
 	}
 
@@ -488,12 +467,12 @@ func c16(c *report.Check) {
 				}
 				var lab []string
 				for _, bk := range ws.bks[w] {
-					d, m, res, err := c16RunL(bk, path)
+					d, m, res, err := c16Run(bk, path)
 					if err != nil {
 						fail(err.Error())
 						return
 					}
-					if bk.name == "memory" && m != nil {
+					if bk.name == "memory" {
 						last := path[L-1]
 						mk := m.key()
 						mmu.Lock()
@@ -511,9 +490,10 @@ func c16(c *report.Check) {
 							lab = labels(path)
 						}
 						fmu.Lock()
-						if finder.explained(bk.name+"/"+hm.Name, lab, d.Desc) {
+						// the known set only changes between levels (resolve), so this is deterministic
+						if len(finder.unexplained(bk.name+"/"+hm.Name, lab, d.Descs)) == 0 {
 							explained++
-						} else {
+						} else if len(fails) <= 20000 {
 							fails = append(fails, c16Fail{idx, path, bk.name, d})
 						}
 						fmu.Unlock()
@@ -523,8 +503,7 @@ func c16(c *report.Check) {
 			paths += total
 			opsRun += total * (L + len(c16Snapshot)) * len(backendNames)
 			if len(fails) > 20000 {
-				fail(fmt.Sprintf("too many unexplained failing paths at length %d: %d", L, len(fails)))
-				fails = fails[:20000]
+				fail(fmt.Sprintf("too many unexplained failing paths at length %d", L))
 			}
 			resolve(ws, fails)
 		}
@@ -536,7 +515,7 @@ func c16(c *report.Check) {
 		{
 			key := newKVModel().key()
 			for _, bk := range ws.bks[0] {
-				bk.reset()
+				bk.softReset()
 				key += "|" + hiddenObs(bk.kv)
 			}
 			seen[key] = true
@@ -555,19 +534,19 @@ func c16(c *report.Check) {
 				o := alphaBFS[idx%len(alphaBFS)]
 				path := append(append([]kop(nil), s.path...), o)
 				r := res{path: path}
-				for _, bk := range ws.bks[w] {
-					d, m, err := c16Run(bk, path)
+				for i, bk := range ws.bks[w] {
+					d, m, _, err := c16Run(bk, path)
 					if err != nil {
 						fail(err.Error())
 						return
 					}
-					if r.key == "" {
+					if i == 0 {
 						r.key = m.key()
 					}
 					if d != nil {
 						r.fails = append(r.fails, c16Fail{idx, path, bk.name, d})
-						// the model state after a divergence inside the path is incomplete: do not expand
 						if d.Step < len(path) {
+							// divergence inside the history: the state after it is not meaningful, do not expand
 							r.key = ""
 							break
 						}
@@ -580,13 +559,7 @@ func c16(c *report.Check) {
 			var next []st
 			var fails []c16Fail
 			for _, r := range results {
-				for _, f := range r.fails {
-					if finder.explained(f.bk+"/"+hm.Name, labels(f.path), f.d.Desc) {
-						explained++
-					} else {
-						fails = append(fails, f)
-					}
-				}
+				fails = append(fails, r.fails...)
 				if r.key == "" || seen[r.key] {
 					continue
 				}
@@ -603,14 +576,14 @@ func c16(c *report.Check) {
 	for _, m := range internal {
 		c.Internal(m)
 	}
-	c.Set("evaluations", paths*len(backendNames)+transitions*len(backendNames))
+	c.Set("evaluations", (paths+transitions)*len(backendNames))
 	c.Set("full_paths", paths)
 	c.Set("operations_compared", opsRun)
 	c.Set("states", states)
 	c.Set("transitions", transitions)
 	c.Set("traces_validated_against_impl", (paths+transitions)*len(backendNames))
 	c.Set("model_states_in_full_paths", len(modelStates))
-	c.Set("failing_paths_explained_by_reported_minimal_history", explained)
+	c.Set("failing_histories_explained_by_reported_minimal_history", explained)
 	c.Set("distinct_nontrivial", dist.N())
 	c.Set("alphabet", labels(alpha))
 	c.Set("rule", fmt.Sprintf("for each hash function {degenerate (a,ab collide; c not), chord.Hash}: every operation sequence of length 1..%d over the %d-operation alphabet run on fresh memory/aof/sqlite stores, every return value and a final full snapshot (Get+PrefixList of a,ab,c; ListKeys(\"\")) compared with the reference model; then BFS to depth %d over the alphabet plus put(k,nil) with de-duplication on (model state, nil/empty/RangeKeys observations of each backend), each transition replayed from an empty store; class = (last operation kind, its model result)", depth, len(alpha), bfsDepth))
@@ -618,7 +591,7 @@ func c16(c *report.Check) {
 	c.Set("exhaustive", true)
 	c.Assume("single client, no concurrency (C18 covers that)",
 		"a failing history is minimised by greedy operation removal; longer failing histories that contain a reported minimal history with the same divergence class are counted, not reported separately",
-		"AOF store driven through its real writer goroutine; leases are not part of this alphabet (C19)")
+		"stores are emptied between histories without the KV API: memory = new instance, sqlite = SQL DELETE on the four tables, AOF = in-memory state swapped for an empty one under the write barrier (new directory every 2048 histories); AOF is driven through its real writer goroutine; leases are not part of this alphabet (C19)")
 }
 
 func c16Replay(c *report.Check, raw []byte) {
@@ -627,6 +600,7 @@ func c16Replay(c *report.Check, raw []byte) {
 		Hash    string `json:"hash"`
 		Backend string `json:"backend"`
 		Path    []kop  `json:"path"`
+		Desc    string `json:"desc"`
 	}
 	if err := json.Unmarshal(raw, &r); err != nil {
 		c.Internal(err.Error())
@@ -638,13 +612,13 @@ func c16Replay(c *report.Check, raw []byte) {
 		return
 	}
 	defer bk.close()
-	d, _, err := c16Run(bk, r.Path)
+	d, _, _, err := c16Run(bk, r.Path)
 	if err != nil {
 		c.Internal(err.Error())
 		return
 	}
 	if d != nil {
-		c.Violation(fmt.Sprintf("c16:%s:%s:%s:%s", r.Backend, r.Hash, strings.Join(labels(r.Path), ";"), d.Desc),
+		c.Violation(fmt.Sprintf("c16:%s:%s:%s:%s", r.Backend, r.Hash, strings.Join(labels(r.Path), ";"), r.Desc),
 			fmt.Sprintf("%s returned %s, contract requires %s", d.Label, d.Got, d.Want), r)
 	}
 }
